@@ -152,7 +152,7 @@ package types
 //@   loop 1 invariant forall i: int, j: int :: 0 <= i && i < j && j < iter ==> gspecs[i].Name != gspecs[j].Name
 
 //@ func (DeploymentID).Validate
-//@   ensures result == nil <==> (validBech32(id.Owner) && id.DSeq != 0)
+//@   ensures result == nil <==> (validBech32(id.Owner) && bech32(unbech32(id.Owner)) == id.Owner && id.DSeq != 0)
 // a create-deployment request passes stateless validation only with a 32-byte version, at least one
 // group and valid groups
 //@ func (MsgCreateDeployment).ValidateBasic
@@ -244,7 +244,7 @@ package types
 //@   trusted
 //@   ensures evSig(result) == sigGroup(3, ev.ID)
 
-//@ property C05 := EscrowAccountForDeployment#*, ParseDeploymentPath#*, ParseDeploymentID#*, DeploymentIDFromEscrowAccount#*
+//@ property C05 := (DeploymentID).Validate#*, EscrowAccountForDeployment#*, ParseDeploymentPath#*, ParseDeploymentID#*, DeploymentIDFromEscrowAccount#*
 //@ property C04 := EscrowAccountForDeployment#*, (Deployment).ID#*, (Group).ID#*, (GroupID).DeploymentID#*, MakeGroupID#*, (DeploymentID).Equals#*, (GroupID).Equals#*,
 //@                 (Group).ValidateClosable#*, (Group).ValidatePausable#*, (Group).ValidateStartable#*,
 //@                 NewEventDeploymentCreated#*, NewEventDeploymentUpdated#*, NewEventDeploymentClosed#*, NewEventGroupClosed#*, NewEventGroupPaused#*, NewEventGroupStarted#*
